@@ -85,6 +85,17 @@ def small_menu(size):
     return out
 
 
+def tiny_menu(size):
+    """nothing, whole (starts at 0 and reaches the end), last base (reaches the end only)"""
+    out = []
+    for c in [(), ((0, size),), ((size - 1, size),)]:
+        if c not in out:
+            out.append(c)
+    return out
+
+
+MENUS = {'full': set_menu, 'small': small_menu, 'tiny': tiny_menu}
+
 STRAND_PATTERNS = ('+-', '-+', '++', '--')
 
 
